@@ -1472,7 +1472,7 @@ write_gvar_data(Relocation *cur, Initializer *init, Type *ty, char *buf, int off
 
         char *loc = buf + offset + mem->offset;
         uint64_t oldval = read_buf(loc, mem->ty->size);
-        uint64_t newval = eval(expr);
+        uint64_t newval = eval(new_cast(expr, mem->ty));
         uint64_t mask = (1L << mem->bit_width) - 1;
         uint64_t combined = oldval | ((newval & mask) << mem->bit_offset);
         write_buf(loc, combined, mem->ty->size);
@@ -1509,8 +1509,9 @@ write_gvar_data(Relocation *cur, Initializer *init, Type *ty, char *buf, int off
     return cur;
   }
 
+  // The initializer is converted as if by assignment (C11 6.7.9p11).
   char **label = NULL;
-  uint64_t val = eval2(init->expr, &label);
+  uint64_t val = eval2(new_cast(init->expr, ty), &label);
 
   if (!label) {
     write_buf(buf + offset, val, ty->size);
